@@ -70,7 +70,21 @@ pub struct FileEntry {
 struct Manifest {
     schema: u32,
     global_key: String,
+    /// Hash of the serialized `files` table. A manifest that lost entries
+    /// (truncated at a table boundary it is still valid TOML) or whose values
+    /// were altered would otherwise be taken at face value, e.g. with a
+    /// file's `dependents` gone its dependents are no longer invalidated.
+    #[serde(default)]
+    digest: String,
     files: BTreeMap<String, FileEntry>,
+}
+
+impl Manifest {
+    fn files_digest(&self) -> String {
+        toml::to_string(&self.files)
+            .map(|x| content_hash(x.as_bytes()))
+            .unwrap_or_default()
+    }
 }
 
 pub struct Store {
@@ -126,7 +140,8 @@ impl Store {
         let mut manifest = parsed.clone().unwrap_or_default();
         let mut on_disk_current = parsed.is_some()
             && manifest.schema == SCHEMA_VERSION
-            && manifest.global_key == global_key;
+            && manifest.global_key == global_key
+            && manifest.digest == manifest.files_digest();
 
         if !on_disk_current {
             if !manifest.files.is_empty() {
@@ -297,6 +312,7 @@ impl Store {
             return;
         }
         self.manifest.files = std::mem::take(&mut self.next_files);
+        self.manifest.digest = self.manifest.files_digest();
 
         let manifest = match toml::to_string(&self.manifest) {
             Ok(x) => x,
